@@ -265,8 +265,14 @@ func sliceOfCreated(fn *ssa.Function, arg ssa.Value) (bool, int) {
 		b, ok := call.Call.Value.(*ssa.Builtin)
 		return ok && b.Name() == "append"
 	}
+	// a list grown by append, or a pre-sized one filled by index
+	isMake := func(v ssa.Value) bool { _, ok := v.(*ssa.MakeSlice); return ok }
+	presized := false
 	if !dependsOn(arg, isAppend) {
-		return false, 0
+		if !dependsOn(arg, isMake) {
+			return false, 0
+		}
+		presized = true
 	}
 	creates := calls(fn, "(*crdIpam).createFloatingIP")
 	n := 0
@@ -283,7 +289,7 @@ func sliceOfCreated(fn *ssa.Function, arg ssa.Value) (bool, int) {
 		if !ok {
 			return
 		}
-		if _, ok := ia.X.(*ssa.Alloc); !ok {
+		if _, ok := ia.X.(*ssa.Alloc); !ok && !(presized && dependsOn(ia.X, isMake)) {
 			return
 		}
 		n++
@@ -1204,10 +1210,6 @@ func ruleOneCriticalSection(c *Ctx, rule string) {
 	for _, fn := range ipamMethods(c) {
 		stores := calls(fn, storeWriters...)
 		if len(stores) == 0 || bareName(fn) == "ConfigurePool" {
-			continue
-		}
-		if bareName(fn) == "AllocateSpecificIP" {
-			c.exempt(rule, fn, "lookup and create in separate critical sections", nil, "AllocateSpecificIP (adoption of an ip a running pod already carries) looks up under RLock, creates without the lock and inserts under Lock; the store Create conflict arbitrates (C01.R3). Listed exception, single instance.")
 			continue
 		}
 		for _, s := range stores {
